@@ -1749,10 +1749,14 @@ static size_t ZSTD_estimateCCtxSize_usingCCtxParams_internal(
     return neededSpace;
 }
 
-size_t ZSTD_estimateCCtxSize_usingCCtxParams(const ZSTD_CCtx_params* params)
+/* parameters derived from a compression level depend on the source size :
+ * the estimators budget for the most demanding size tier, like ZSTD_estimateCCtxSize() */
+static const unsigned long long ZSTD_estimateSrcSizeTiers[4] = {16 KB, 128 KB, 256 KB, ZSTD_CONTENTSIZE_UNKNOWN};
+
+static size_t ZSTD_estimateCCtxSize_usingCCtxParams_tier(const ZSTD_CCtx_params* params, unsigned long long srcSizeHint)
 {
     ZSTD_compressionParameters const cParams =
-                ZSTD_getCParamsFromCCtxParams(params, ZSTD_CONTENTSIZE_UNKNOWN, 0, ZSTD_cpm_noAttachDict);
+                ZSTD_getCParamsFromCCtxParams(params, srcSizeHint, 0, ZSTD_cpm_noAttachDict);
     ZSTD_paramSwitch_e const useRowMatchFinder = ZSTD_resolveRowMatchFinderMode(params->useRowMatchFinder,
                                                                                &cParams);
 
@@ -1766,6 +1770,18 @@ size_t ZSTD_estimateCCtxSize_usingCCtxParams(const ZSTD_CCtx_params* params)
      * take space under ASAN. */
     return ZSTD_estimateCCtxSize_usingCCtxParams_internal(
         &cParams, &ldmParams, 1, useRowMatchFinder, 0, 0, ZSTD_CONTENTSIZE_UNKNOWN, ZSTD_hasExtSeqProd(params), params->maxBlockSize);
+}
+
+size_t ZSTD_estimateCCtxSize_usingCCtxParams(const ZSTD_CCtx_params* params)
+{
+    size_t largestSize = 0;
+    int tier;
+    for (tier = 0; tier < 4; ++tier) {
+        size_t const tierSize = ZSTD_estimateCCtxSize_usingCCtxParams_tier(params, ZSTD_estimateSrcSizeTiers[tier]);
+        if (ZSTD_isError(tierSize)) return tierSize;
+        largestSize = MAX(tierSize, largestSize);
+    }
+    return largestSize;
 }
 
 size_t ZSTD_estimateCCtxSize_usingCParams(ZSTD_compressionParameters cParams)
@@ -1810,11 +1826,11 @@ size_t ZSTD_estimateCCtxSize(int compressionLevel)
     return memBudget;
 }
 
-size_t ZSTD_estimateCStreamSize_usingCCtxParams(const ZSTD_CCtx_params* params)
+static size_t ZSTD_estimateCStreamSize_usingCCtxParams_tier(const ZSTD_CCtx_params* params, unsigned long long srcSizeHint)
 {
     RETURN_ERROR_IF(params->nbWorkers > 0, GENERIC, "Estimate CCtx size is supported for single-threaded compression only.");
     {   ZSTD_compressionParameters const cParams =
-                ZSTD_getCParamsFromCCtxParams(params, ZSTD_CONTENTSIZE_UNKNOWN, 0, ZSTD_cpm_noAttachDict);
+                ZSTD_getCParamsFromCCtxParams(params, srcSizeHint, 0, ZSTD_cpm_noAttachDict);
         size_t const blockSize = MIN(ZSTD_resolveMaxBlockSize(params->maxBlockSize), (size_t)1 << cParams.windowLog);
         size_t const inBuffSize = (params->inBufferMode == ZSTD_bm_buffered)
                 ? ((size_t)1 << cParams.windowLog) + blockSize
@@ -1831,6 +1847,18 @@ size_t ZSTD_estimateCStreamSize_usingCCtxParams(const ZSTD_CCtx_params* params)
             &cParams, &ldmParams, 1, useRowMatchFinder, inBuffSize, outBuffSize,
             ZSTD_CONTENTSIZE_UNKNOWN, ZSTD_hasExtSeqProd(params), params->maxBlockSize);
     }
+}
+
+size_t ZSTD_estimateCStreamSize_usingCCtxParams(const ZSTD_CCtx_params* params)
+{
+    size_t largestSize = 0;
+    int tier;
+    for (tier = 0; tier < 4; ++tier) {
+        size_t const tierSize = ZSTD_estimateCStreamSize_usingCCtxParams_tier(params, ZSTD_estimateSrcSizeTiers[tier]);
+        if (ZSTD_isError(tierSize)) return tierSize;
+        largestSize = MAX(tierSize, largestSize);
+    }
+    return largestSize;
 }
 
 size_t ZSTD_estimateCStreamSize_usingCParams(ZSTD_compressionParameters cParams)
